@@ -50,7 +50,7 @@ def gen_problem(rng, max_q=5, max_cuts=2, allow_big=True, moves=False, idle_ok=T
             instrs.append({"name": "barrier", "qubits": rng.sample(live, k)})
         else:
             instrs.append(gen.rand_1q(rng, rng.choice(g)))
-    ncuts = (rng.randint(1, max_cuts) if rng.random() < 0.85 else 0) if npart >= 2 else 0
+    ncuts = (rng.randint(1, max_cuts) if rng.random() < 0.85 else 0) if (npart >= 2 and max_cuts >= 1) else 0
     big_used = False
     for _ in range(ncuts):
         a, b = rng.sample(range(npart), 2)
